@@ -12,6 +12,7 @@ import (
 	"fmt"
 	"os"
 	"path/filepath"
+	"runtime/pprof"
 	"sort"
 	"strconv"
 	"strings"
@@ -61,6 +62,11 @@ type finding struct {
 	Description string `json:"description"`
 }
 
+var stopProfile = func() {}
+
+// StopProfile flushes the optional CPU profile (workers call it before exiting).
+func StopProfile() { stopProfile() }
+
 // Run is one invocation of a check.
 type Run struct {
 	Prop    string
@@ -89,6 +95,12 @@ func Start(prop string) *Run {
 	only := flag.String("only", "", "run only sub-checks whose name contains this")
 	shard := flag.String("shard", "", "internal: worker shard spec")
 	flag.Parse()
+	if pf := os.Getenv("VERIF_CPUPROFILE"); pf != "" && *shard != "" {
+		if f, err := os.Create(fmt.Sprintf("%s.%d", pf, os.Getpid())); err == nil {
+			pprof.StartCPUProfile(f)
+			stopProfile = pprof.StopCPUProfile
+		}
+	}
 	r.Tier = *tier
 	if r.Tier != "thorough" {
 		r.Tier = "quick"
